@@ -90,8 +90,13 @@ func RunQProgram(rng *core.Rng, p QProgram) *QResult { return RunQProgramForced(
 // RunQProgramForced: systematic=true replays the forced decision prefix and
 // then always takes the first enabled goroutine (depth-first exploration).
 func RunQProgramForced(rng *core.Rng, p QProgram, forced []int, systematic bool) *QResult {
+	return RunQProgramBounded(rng, p, forced, systematic, 0)
+}
+
+// RunQProgramBounded: systematic exploration with at most maxPreempt preemptions (0 = unbounded).
+func RunQProgramBounded(rng *core.Rng, p QProgram, forced []int, systematic bool, maxPreempt int) *QResult {
 	s := NewSched(rng)
-	s.Forced, s.Systematic = forced, systematic
+	s.Forced, s.Systematic, s.MaxPreempt = forced, systematic, maxPreempt
 	defer s.Deactivate()
 	h := NewHistory(s.Tick)
 	q := col.Queue[string](notation).MakeWithCapacity(uint(p.Cap))
